@@ -25,17 +25,37 @@ def split_file(path, parts, maxlines=4000):
     return out
 
 
-def validate_one(ctx, trace, idx):
+CFG_POOL = 'SPECIFICATION TPSpec\nINVARIANT TPReport\nPOSTCONDITION TPAccepted\nCHECK_DEADLOCK FALSE\n'
+
+
+def split_runs(path, parts, marker='"ev":"reset"'):
+    """split a trace into <= parts files at run boundaries (lines containing marker)"""
+    lines = open(path).read().splitlines()
+    starts = [i for i, l in enumerate(lines) if marker in l]
+    if not starts:
+        return []
+    per = max(1, (len(starts) + parts - 1) // parts)
+    out = []
+    for j in range(0, len(starts), per):
+        a = starts[j]
+        b = starts[j + per] if j + per < len(starts) else len(lines)
+        p = '%s.%d' % (path, len(out))
+        open(p, 'w').write('\n'.join(lines[a:b]) + '\n')
+        out.append(p)
+    return out
+
+
+def validate_one(ctx, trace, idx, module='Trace', cfg=None):
     d = ctx.specdir()
-    cfgp = os.path.join(d, 'Trace.cfg')
+    cfgp = os.path.join(d, module + '.cfg')
     if not os.path.exists(cfgp):
-        open(cfgp, 'w').write(CFG)
+        open(cfgp, 'w').write(cfg or CFG)
     outp = trace + '.tlc.out'
     md = trace + '.md'
     env = dict(os.environ)
     env['JAVA_TOOL_OPTIONS'] = (env.get('JAVA_TOOL_OPTIONS', '') + ' -Xss512m -Xmx3g').strip()
     env['VERIF_TRACE'] = trace
-    cmd = ['timeout', '3000', 'tlc', '-workers', '1', '-metadir', md, '-config', cfgp, '-nowarning', os.path.join(d, 'Trace.tla')]
+    cmd = ['timeout', '3000', 'tlc', '-workers', '1', '-metadir', md, '-config', cfgp, '-nowarning', os.path.join(d, module + '.tla')]
     t = time.time()
     with open(outp, 'w') as f:
         p = subprocess.run(cmd, cwd=d, env=env, stdout=f, stderr=subprocess.STDOUT)
